@@ -284,8 +284,58 @@ func TestVerif_C15(t *testing.T) {
 			one(l, randRichValidCfg(l.Rng), l.Batch == 0 && i < 2)
 		}
 	})
-	r.Exhaustive("for every visited configuration: all permutations of each list of length <= 4")
+	// ---- well-known header names in their canonical spelling against other spellings (lesson of seeded change C15-n:
+	// a lookup table of well-known names consulted before the generic lower-casing)
+	r.Parallel(len(wellKnownHeaderNames), func(l *Local) {
+		name := wellKnownHeaderNames[l.Batch]
+		for _, asResp := range []bool{false, true} {
+			mkSpec := func(spelling string) *CfgSpec {
+				c := &CfgSpec{Origins: []OAtom{secureOriginAtoms[0], secureOriginAtoms[3]}, Methods: []MAtom{validMethodAtoms[0]}, MaxAge: 600}
+				a := HAtom{spelling, hValid, asciiLower(spelling)}
+				other := hv("X-Listed-1")
+				if asResp {
+					c.RespHdrs = []HAtom{a, other}
+				} else {
+					c.ReqHdrs = []HAtom{other, a}
+				}
+				return c
+			}
+			c := mkSpec(name)
+			m, err := cors.NewMiddleware(c.Config())
+			if err != nil {
+				continue // a name the library does not accept in this list (forbidden, safelisted-only, ...): not C15's business
+			}
+			sem := c.Sem()
+			suite := suiteFor(sem)
+			base := runSuite(m, suite, false)
+			for _, sp := range []string{asciiLower(name), asciiUpper(name), oneUpper(name, l.Batch), oneUpper(name, l.Batch+3), flipCase(l.Rng, name)} {
+				if sp == "" || sp == name {
+					continue
+				}
+				tw := mkSpec(sp)
+				c15Run(r, l, c, tw, "well-known header name "+name+" spelled "+sp, suite, base)
+				l.NontrivialKey(name, sp, fmt.Sprint(asResp))
+				l.counters["twins_well-known-name"]++
+			}
+		}
+	})
+	r.Exhaustive("for every visited configuration: all permutations of each list of length <= 4; every name of a 96-name corpus of well-known header names, canonical spelling vs lower / upper / one-upper / mixed case, as request and as response header")
 	r.Finish(1000)
+}
+
+// wellKnownHeaderNames: registered and de-facto standard header names in their canonical spelling
+var wellKnownHeaderNames = []string{
+	"Accept", "Accept-Language", "Accept-Ranges", "Age", "Allow", "Alt-Svc", "Authorization", "Baggage", "Cache-Control", "Content-Disposition",
+	"Content-Encoding", "Content-Language", "Content-Location", "Content-Range", "Content-Security-Policy", "Content-Type", "Cross-Origin-Resource-Policy",
+	"Device-Memory", "Downlink", "DPR", "ECT", "ETag", "Early-Data", "Expect-CT", "Expires", "Forwarded", "From", "Idempotency-Key", "If-Match",
+	"If-Modified-Since", "If-None-Match", "If-Range", "If-Unmodified-Since", "Last-Event-ID", "Last-Modified", "Link", "Location", "Max-Forwards",
+	"NEL", "Origin-Agent-Cluster", "Pragma", "Prefer", "Preference-Applied", "Priority", "Range", "Referrer-Policy", "Report-To", "Retry-After", "RTT",
+	"Save-Data", "Server", "Server-Timing", "SourceMap", "Strict-Transport-Security", "Timing-Allow-Origin", "Tk", "Traceparent", "Tracestate",
+	"Upgrade-Insecure-Requests", "User-Agent", "Vary", "Viewport-Width", "WWW-Authenticate", "Want-Digest", "Warning", "Width",
+	"X-Api-Key", "X-Content-Type-Options", "X-Correlation-ID", "X-CSRF-Token", "X-DNS-Prefetch-Control", "X-Forwarded-For", "X-Forwarded-Host",
+	"X-Forwarded-Proto", "X-Frame-Options", "X-HTTP-Method", "X-Pingback", "X-Powered-By", "X-RateLimit-Limit", "X-RateLimit-Remaining",
+	"X-RateLimit-Reset", "X-Request-ID", "X-Requested-With", "X-Robots-Tag", "X-Total-Count", "X-UA-Compatible", "X-XSS-Protection", "X-Amz-Date",
+	"X-Amz-Security-Token", "X-Goog-Api-Key", "X-GitHub-Media-Type", "X-Auth-Token", "X-Real-IP", "X-B3-TraceId", "X-B3-SpanId", "Sentry-Trace",
 }
 
 func firstWord(s string) string {
